@@ -1,15 +1,21 @@
 #!/usr/bin/env python3
 """Must-fail corpus: apply each patch to a scratch copy of /repo (outside /repo and /verif), run the
 property's check against it and expect the named obligation to be reported as a VIOLATION.
-usage: selftest/run.py [case-substring]"""
+usage: selftest/run.py [-j N] [case-substring | property]"""
 import json, os, subprocess, sys, tempfile, shutil
+from concurrent.futures import ThreadPoolExecutor
+
 V = os.path.dirname(os.path.dirname(os.path.abspath(__file__)))
 cases = json.load(open(os.path.join(V, "selftest", "cases.json")))
-flt = sys.argv[1] if len(sys.argv) > 1 else ""
-bad = 0
-for c in cases:
-    if flt and flt not in c["patch"] and flt != c["property"]:
-        continue
+args = sys.argv[1:]
+par = 1
+if args and args[0] == "-j":
+    par = int(args[1])
+    args = args[2:]
+flt = args[0] if args else ""
+
+
+def run_case(c):
     tmp = tempfile.mkdtemp(prefix="verif-selftest-")
     try:
         subprocess.run(["rsync", "-a", "--exclude", ".git", "/repo/", tmp + "/"], check=True)
@@ -18,20 +24,31 @@ for c in cases:
             pth = os.path.join(V, "seeded", c["patch"][7:], "patch.diff")
         r = subprocess.run(["patch", "-p1", "-s", "-i", pth], cwd=tmp, capture_output=True, text=True, errors="replace")
         if r.returncode != 0:
-            print("PATCH-FAILED", c["patch"], r.stdout, r.stderr)
-            bad += 1
-            continue
+            return False, "PATCH-FAILED %s %s %s" % (c["patch"], r.stdout, r.stderr)
         env = dict(os.environ, VERIF_REPO=tmp, VERIF_EVIDENCE_DIR=os.path.join(tmp, ".evidence"))
+        if par > 1:
+            env["VERIF_JOBS"] = "3"
         r = subprocess.run([os.path.join(V, "check"), c["property"], "quick"], cwd=V, env=env, capture_output=True, text=True, errors="replace")
         out = r.stdout
         viol = [l for l in out.splitlines() if l.startswith("VIOLATION")]
         named = c["expect"] in out
         repro = any("no-failing-input-found" not in l for l in viol)
-        ok = r.returncode == 1 and viol and named and (repro or not c.get("reproduced"))
-        sys.stdout.flush(); print("%-4s %-40s %-4s exit=%d violations=%d named=%s reproduced=%s" % ("ok" if ok else "MISS", c["patch"], c["property"], r.returncode, len(viol), named, repro))
+        ok = r.returncode == 1 and bool(viol) and named and (repro or not c.get("reproduced"))
+        msg = "%-4s %-40s %-4s exit=%d violations=%d named=%s reproduced=%s" % (
+            "ok" if ok else "MISS", c["patch"], c["property"], r.returncode, len(viol), named, repro)
         if not ok:
-            bad += 1
-            print(out[-1500:])
+            msg += "\n" + out[-1500:]
+        return ok, msg
     finally:
         shutil.rmtree(tmp, ignore_errors=True)
+
+
+todo = [c for c in cases if not flt or flt in c["patch"] or flt == c["property"]]
+bad = 0
+with ThreadPoolExecutor(max_workers=par) as ex:
+    for ok, msg in ex.map(run_case, todo):
+        print(msg)
+        sys.stdout.flush()
+        if not ok:
+            bad += 1
 sys.exit(1 if bad else 0)
